@@ -127,27 +127,18 @@ theorem contains_spec (seq : List Item) (name : Cps) :
   unfold contains
   rw [List.contains_iff_mem, mem_nnames]
 
-/- T10.2 (iteration), full statement:
-     iter seq = (specNames (props seq)).map (effective (props seq))  ∧  ∀ o ∈ iter seq, o.isSome
-   It is FALSE on the current code for a block with an entry whose normalised name is not a fixpoint of
-   `normalize` (literal name with an escaped backslash before a non-hex character, `a\\g`): `__iter__` and
-   `getProperties()` feed the already normalised name to `getProperty`, which normalises it again and finds
-   nothing — known finding `C10-escaped-backslash-name`, `iter_escaped_backslash_witness` below. -/
-
-/-- T10.2 (iteration, `getProperties()`): one entry per distinct name, namely its effective entry — for blocks whose
-normalised names are fixpoints of `normalize` (guard `Stable`). -/
-theorem iter_spec_partial (seq : List Item) (h : NameInv seq) (hs : Stable seq) :
+/-- T10.2 (iteration, `getProperties()`): one entry per distinct name, namely its effective entry, and never `None` —
+for every block. (Before fix "iterate a style declaration by its normalized names without normalizing them again"
+this held only for names that are fixpoints of `normalize`; `__iter__` / `getProperties()` now look the listed
+names up with `__effective`, which does not normalise its argument again.) -/
+theorem iter_spec (seq : List Item) :
     iter seq = (specNames (props seq)).map (fun n => effective (props seq) n) ∧
     ∀ o ∈ iter seq, o.isSome = true := by
-  have hfix : ∀ n ∈ nnames seq, normalize n = n := by
-    intro n hn
-    obtain ⟨p, hp, hpn⟩ := (mem_nnames seq n).mp hn
-    rw [← hpn]; exact hs p hp
   have e1 : iter seq = (nnames seq).map (fun n => effective (props seq) n) := by
     unfold iter
     apply List.map_congr_left
-    intro n hn
-    rw [getProperty_effective seq n h, hfix n hn]
+    intro n _
+    exact effectiveOf_effective seq n
   refine ⟨by rw [e1, nnames_spec], ?_⟩
   intro o ho
   rw [e1] at ho
@@ -157,11 +148,18 @@ theorem iter_spec_partial (seq : List Item) (h : NameInv seq) (hs : Stable seq) 
   unfold effective
   rw [hx]; rfl
 
-/-- the known finding, machine-checked on the model: for the block `a\\g: r` the name is listed by `keys()` but
-iteration yields `None` -/
-theorem iter_escaped_backslash_witness :
-    NameInv escWitness ∧ keys escWitness = [[97, 92, 103]] ∧ iter escWitness = [none] ∧ ¬ Stable escWitness := by
-  refine ⟨by unfold NameInv; decide, by decide, by decide, by unfold Stable; decide⟩
+/-- `getProperties()` (no name, `all=False`) is the same list as iteration -/
+theorem getProperties_effective_spec (seq : List Item) : getProperties seq [] false = iter seq := by
+  unfold getProperties getPropertiesIdx iter effectiveOf
+  simp [List.map_map, Function.comp]
+
+/-- the former witness of the fixed finding `C10-escaped-backslash-name`: for the block `a\\g: r` iteration now yields
+the entry. What remains (and is inherent to an API that lists *normalised* names): feeding the listed name `a\g` back
+into `getProperty` normalises it once more and finds nothing, the literal name does. -/
+theorem iter_escaped_backslash_fixed :
+    keys escWitness = [[97, 92, 103]] ∧ (iter escWitness).all Option.isSome = true ∧
+    getProperty escWitness [97, 92, 103] true = none ∧ (getProperty escWitness escLit true).isSome = true := by
+  decide
 
 /-! ## T10.3 removal -/
 
@@ -412,49 +410,84 @@ theorem vars_inv_remove (s : Vars) (name : Cps) (h : VInv s) :
     VInv (vRemove s name).st ∧ (s.readonly = false → (vRemove s name).out = .ok (vGet s name)) :=
   vRemove_inv s name h
 
-/- T10.7 for `setVariable`, full statement:  VInv s → VInv (vSet env s name value).st  for every name.
-   FALSE on the current code when `normalize (normalize name) ≠ normalize name` (escaped backslash, `a\\g`):
-   the item list stores the normalised name and every later comparison / the serializer normalises it again
-   (`vars_escaped_backslash_witness`, known finding `C10-escaped-backslash-name`). -/
+/-- `setVariable` keeps the invariant for every name (since fix "setVariable keeps the identifier the grammar accepted
+as the variable name": the item list holds the literal identifier, the dict its normal form, as after parsing) -/
+theorem vars_inv_set (env : Env) (s : Vars) (name value : Cps) (h : VInv s) : VInv (vSet env s name value).st :=
+  vSet_inv env s name value h
 
-/-- `setVariable` keeps the invariant for every name whose normal form is a fixpoint of `normalize` -/
-theorem vars_inv_set_partial (env : Env) (s : Vars) (name value : Cps) (h : VInv s)
-    (hst : normalize (normalize name) = normalize name) : VInv (vSet env s name value).st :=
-  vSet_inv env s name value h hst
+/-- under the invariant `keys()` are exactly the names the serialisation lists, in order, and looking a variable up by
+the literal name of its item gives the serialised value -/
+theorem vars_keys_and_literal_lookup (s : Vars) (h : VInv s) :
+    vKeys s = (vSerialized s).map (·.1) ∧
+    ∀ n v, VItem.var n v ∈ s.seq → vGet s n = v.css := by
+  refine ⟨?_, ?_⟩
+  · rw [vSerialized_eq, ← h.1]; simp [vKeys, List.map_map, Function.comp]
+  · intro n v hm
+    have hmem : (normalize n, v) ∈ s.vars := by
+      rw [h.1]
+      have : ∀ seq : List VItem, VItem.var n v ∈ seq → (normalize n, v) ∈ varsOf seq := by
+        intro seq
+        induction seq with
+        | nil => intro x; cases x
+        | cons x t ih =>
+          intro hx
+          simp only [List.mem_cons] at hx
+          rcases hx with hx | hx
+          · subst hx; simp [varsOf]
+          · cases x <;> simp [varsOf, ih hx]
+      exact this s.seq hm
+    have := dictGet_of_mem s.vars (normalize n, v) h.2 hmem
+    simp only [vGet, this]
 
-/-- T10.7 over histories: after any sequence of parse / set / remove / read-only switches (either error mode) the
-invariant holds and the API reports what the serialisation lists — provided the names given to `setVariable` and the
-identifiers of the parsed texts are stable under `normalize` -/
-theorem vars_run_partial (env : Env) (s : Vars) (ops : List (Bool × VOp)) (h : VInv s) (hk : KeysStable s)
-    (hst : ∀ o ∈ ops, VOpStable o.2) :
-    VInv (vrun env s ops) ∧ KeysStable (vrun env s ops) ∧ vReported (vrun env s ops) = vSerialized (vrun env s ops) := by
-  suffices hh : VInv (vrun env s ops) ∧ KeysStable (vrun env s ops) from
-    ⟨hh.1, hh.2, (vars_api_eq_serialisation _ hh.1 hh.2).1⟩
+/-- T10.7 over histories: after ANY sequence of parse / set / remove / read-only switches (either error mode, any
+names) the look-up dict is exactly what the serialisable item list denotes, keys are distinct, `keys()` are the
+serialised names and look-up by literal name gives the serialised value -/
+theorem vars_run (env : Env) (s : Vars) (ops : List (Bool × VOp)) (h : VInv s) :
+    VInv (vrun env s ops) ∧ vKeys (vrun env s ops) = (vSerialized (vrun env s ops)).map (·.1) := by
+  suffices hh : VInv (vrun env s ops) from ⟨hh, (vars_keys_and_literal_lookup _ hh).1⟩
   induction ops generalizing s with
-  | nil => exact ⟨h, hk⟩
+  | nil => exact h
+  | cons o os ih =>
+    simp only [vrun]
+    apply ih
+    cases hop : o.2 with
+    | set n v => exact vSet_inv _ s n v h
+    | remove n => exact (vRemove_inv s n h).1
+    | setText items => exact vSetCssText_inv s items h
+    | setReadonly b => exact h
+
+/- `[(k, getVariableValue(k)) for k in keys()] = serialisation`, full statement for every history: FALSE by design of
+   the API for a key that is not a fixpoint of `normalize` (`getVariableValue` normalises the *listed* key once more);
+   it holds when the identifiers used are stable — the same residual as `getPropertyValue(keys()[i])`. -/
+
+/-- … and when all identifiers are stable under `normalize`, looking every listed key up reports the serialisation -/
+theorem vars_run_reported_partial (env : Env) (s : Vars) (ops : List (Bool × VOp)) (h : VInv s) (hk : KeysStable s)
+    (hst : ∀ o ∈ ops, VOpStable (withMode env o.1) o.2) :
+    KeysStable (vrun env s ops) ∧ vReported (vrun env s ops) = vSerialized (vrun env s ops) := by
+  suffices hh : KeysStable (vrun env s ops) from
+    ⟨hh, (vars_api_eq_serialisation _ (vars_run env s ops h).1 hh).1⟩
+  induction ops generalizing s with
+  | nil => exact hk
   | cons o os ih =>
     simp only [vrun]
     have ho := hst o (by simp)
-    have hrest : ∀ o' ∈ os, VOpStable o'.2 := fun o' ho' => hst o' (by simp [ho'])
+    have hrest : ∀ o' ∈ os, VOpStable (withMode env o'.1) o'.2 := fun o' ho' => hst o' (by simp [ho'])
     cases hop : o.2 with
     | set n v =>
       rw [hop] at ho
-      exact ih _ (vSet_inv _ s n v h ho) (vSet_keysStable _ s n v hk ho) hrest
+      exact ih _ (vSet_inv _ s n v h) (vSet_keysStable _ s n v hk ho) hrest
     | remove n => exact ih _ (vRemove_inv s n h).1 (vRemove_keysStable s n hk) hrest
     | setText items =>
       rw [hop] at ho
       exact ih _ (vSetCssText_inv s items h) (vSetCssText_keysStable s items hk ho) hrest
     | setReadonly b => exact ih _ h hk hrest
 
-/-- the known finding on the model: `setVariable('a\\g', '1'); setVariable('a\\g', '2')` — the API reports the value
-`2` under the key `a\g`, the serialisation lists `ag: 1` -/
-theorem vars_escaped_backslash_witness :
-    vKeys escVars = [[97, 92, 103]] ∧ escVars.vars = [([97, 92, 103], ⟨[50], [50]⟩)] ∧
-    vSerialized escVars = [([97, 103], [49])] ∧ ¬ VInv escVars := by
+/-- the former witness of the fixed finding in the variables block: `setVariable('a\\g','1'); setVariable('a\\g','2')`
+now leaves one item `a\\g` with the value `2`, key `a\g`, and the invariant holds -/
+theorem vars_escaped_backslash_fixed :
+    vKeys escVars = [[97, 92, 103]] ∧ vSerialized escVars = [([97, 92, 103], [50])] ∧
+    escVars.seq = [.var escLit ⟨[50], [50]⟩] ∧ VInv escVars := by
   refine ⟨by decide, by decide, by decide, ?_⟩
-  intro h
-  have := h.1
-  revert this
-  decide
+  exact vSet_inv _ _ _ _ (vSet_inv _ _ _ _ vars_inv_empty)
 
 end CssVerif.C10
